@@ -2634,7 +2634,7 @@ Proof.
 Qed.
 
 (* ------------------------------------------------------------------ one step touches one backend *)
-Definition op_conn (o : op) : option N :=
+Definition own_conn (o : op) : option N :=
   match o with
   | OConnect c _ | OHello c _ | OJoin c _ _ _ | OMsg c _ _ | OCtl c _ _ | OBye c | ODrop c | OInternal c _
   | OMedia c _ _ _ _ | OTransient c _ _ _ | OHelloAborted c _ _ => Some c
@@ -2648,8 +2648,8 @@ Definition conn_on (b : N) (h : hub) (c : N) : Prop :=
 Definition op_on (b : N) (h : hub) (o : op) : Prop :=
   match o with
   | OApi b' _ _ _ => b' = b
-  | OHello _ hl => hello_on b h hl
-  | OConnect _ _ | OHelloAborted _ _ _ => True
+  | OHello c hl => conn_on b h c /\ (unattached h c -> hello_on b h hl)
+  | OConnect c _ | OHelloAborted c _ _ => conn_on b h c
   | OJoin c _ _ _ | OMsg c _ _ | OCtl c _ _ | OBye c | ODrop c | OInternal c _ | OMedia c _ _ _ _ | OTransient c _ _ _ => conn_on b h c
   | OTick _ | ODeliver _ | OMcuDone _ _ => False
   end.
@@ -2661,11 +2661,11 @@ Lemma close_unattached h c cn : aget (h_conns h) c = Some cn -> c_sess cn = None
   close_conn h c = (set_conns h (adel (h_conns h) c), [Closed c]).
 Proof. intros Hc Hs. unfold close_conn. now rewrite Hc, Hs. Qed.
 
-Theorem step_local b h o : WF h -> TI h -> rs_local h o = true -> op_on b h o -> Loc b (op_conn o) h (step h o).
+Theorem step_local b h o : WF h -> TI h -> rs_local h o = true -> op_on b h o -> Loc b (own_conn o) h (step h o).
 Proof.
   intros W TIh Hl Hon.
   destruct o as [c addr|c hl|c rn rs rep|c to tag|c to tag|c|c|secs|b' signas room q|c q|c to mk stream media|tok ok|c kindn key val|pos|c hl late];
-    cbn [op_conn op_on] in *; try contradiction.
+    cbn [own_conn op_on] in *; try contradiction.
   - (* connect *)
     cbn [step]. destruct (aget (h_conns h) c) as [cn|]; [apply loc_ret|].
     split; cbn [fst snd]; [apply fr_eq; reflexivity|]. apply outs_ok_cons_own; [reflexivity|apply outs_ok_nil].
@@ -2679,7 +2679,7 @@ Proof.
     assert (Hu' : unattached h' c).
     { intros cn0 Hcn0. unfold h' in Hcn0. cbn [h_conns set_conns] in Hcn0. rewrite aget_aset_same in Hcn0. now injection Hcn0 as <-. }
     assert (W' : WF h') by (apply wf_set_conn_nosess; [exact W|reflexivity]).
-    eapply loc_after_fr; [exact F'|]. apply (do_hello_spec b h' c cn hl W' TI' Hu'). exact Hon.
+    eapply loc_after_fr; [exact F'|]. apply (do_hello_spec b h' c cn hl W' TI' Hu'). exact (proj2 Hon Hu).
   - (* join *)
     cbn [step]. apply (with_session_spec (Loc b (Some c) h)); [apply loc_ret|apply loc_own|].
     intros cn sid s Hc Hs Hg. assert (Hb : s_backend s = b) by (apply (Hon cn sid s); auto).
@@ -2763,13 +2763,306 @@ Proof.
 Qed.
 
 Theorem qstep_local b h o : WF h -> TI h -> rs_local h o = true -> op_on b h o -> bus_all b h ->
-  Loc b (op_conn o) h (qstep h o) /\ bus_all b (fst (qstep h o)).
+  Loc b (own_conn o) h (qstep h o) /\ bus_all b (fst (qstep h o)).
 Proof.
   intros W TIh Hl Hon Ha. unfold qstep.
   pose proof (step_local b h o W TIh Hl Hon) as L1.
   pose proof (wf_step h o W) as W1. pose proof (ti_step h o W TIh) as TI1.
   destruct (step h o) as [h1 o1]. cbn [fst] in *.
-  assert (Ha1 : bus_all b h1) by (apply (bus_all_fr b (op_conn o) h); [apply L1|exact Ha]).
-  destruct (drain_local b (op_conn o) 500 h1 W1 TI1 Ha1) as [L2 Ha2]. destruct (drain 500 h1) as [h2 o2]. cbn [fst] in *.
-  split; [|exact Ha2]. apply (loc_bind b (op_conn o) h (h1, o1) (h2, o2)); assumption.
+  assert (Ha1 : bus_all b h1) by (apply (bus_all_fr b (own_conn o) h); [apply L1|exact Ha]).
+  destruct (drain_local b (own_conn o) 500 h1 W1 TI1 Ha1) as [L2 Ha2]. destruct (drain 500 h1) as [h2 o2]. cbn [fst] in *.
+  split; [|exact Ha2]. apply (loc_bind b (own_conn o) h (h1, o1) (h2, o2)); assumption.
 Qed.
+
+(* ------------------------------------------------------------------ the invariants hold in every reachable state *)
+Lemma ti_init limits gated : TI (init limits gated).
+Proof. split; [apply ten_init|apply bij_init]. Qed.
+Lemma ti_drain fuel : forall h, TI h -> TI (fst (drain fuel h)).
+Proof.
+  induction fuel as [|f IH]; intros h TIh; cbn [drain]; [exact TIh|]. destruct (h_bus h); [exact TIh|].
+  pose proof (ti_deliver_at h 0 TIh) as TI1. destruct (deliver_at h 0) as [h1 o1]. cbn [fst] in *.
+  specialize (IH h1 TI1). destruct (drain f h1) as [h2 o2]. exact IH.
+Qed.
+Theorem ti_qstep h o : WF h -> TI h -> TI (fst (qstep h o)).
+Proof.
+  intros W TIh. unfold qstep. pose proof (ti_step h o W TIh) as TI1. destruct (step h o) as [h1 o1]. cbn [fst] in *.
+  pose proof (ti_drain 500 h1 TI1) as TI2. destruct (drain 500 h1) as [h2 o2]. exact TI2.
+Qed.
+Theorem ti_run ops : forall h, WF h -> TI h -> TI (run h ops).
+Proof. induction ops as [|o r IH]; intros h W TIh; cbn [run]; [exact TIh|]. apply IH; [now apply wf_step|now apply ti_step]. Qed.
+Theorem ti_qrun ops : forall h, WF h -> TI h -> TI (qrun h ops).
+Proof. induction ops as [|o r IH]; intros h W TIh; cbn [qrun]; [exact TIh|]. apply IH; [now apply wf_qstep|now apply ti_qstep]. Qed.
+Theorem ti_reachable limits gated ops : TI (run (init limits gated) ops).
+Proof. apply ti_run; [apply wf_init|apply ti_init]. Qed.
+Theorem ti_reachable_q limits gated ops : TI (qrun (init limits gated) ops).
+Proof. apply ti_qrun; [apply wf_init|apply ti_init]. Qed.
+
+(* ------------------------------------------------------------------ isolation_partial *)
+(* what an op of backend b leaves alone *)
+Definition isolated (b : N) (oc : option N) (h : hub) (r : hub * list out) : Prop :=
+  (* (a) sessions of other backends: the whole record is unchanged, none appears, none disappears *)
+  (forall sid s, s_backend s <> b -> get_sess h sid = Some s \/ get_sess (fst r) sid = Some s -> get_sess (fst r) sid = get_sess h sid) /\
+  (* (b) messages go to the op's own connection or to connections of sessions of b *)
+  (forall c m, In (ToConn c m) (snd r) -> Some c = oc \/ bconn b h c) /\
+  (* (c) rooms of other backends are unchanged *)
+  (forall b' rn, b' <> b -> room_of (fst r) (b', rn) = room_of h (b', rn)) /\
+  (* what it queues for later delivery are publications of b *)
+  (forall p, In p (h_bus (fst r)) -> In p (h_bus h) \/ pub_ok b (fst r) p).
+
+Lemma isolated_of_loc b oc h r : Loc b oc h r -> isolated b oc h r.
+Proof.
+  intros [F O]. split; [|split; [|split]].
+  - intros sid s Hne Hor. now apply (fr_sess _ _ _ _ F sid s).
+  - exact O.
+  - intros b' rn Hne. now apply (fr_room _ _ _ _ F (b', rn)).
+  - apply (fr_bus _ _ _ _ F).
+Qed.
+
+Theorem isolation_partial_step b h o : WF h -> TI h -> rs_local h o = true -> op_on b h o ->
+  isolated b (own_conn o) h (step h o).
+Proof. intros W TIh Hl Hon. now apply isolated_of_loc, step_local. Qed.
+
+Theorem isolation_partial b h o : WF h -> TI h -> rs_local h o = true -> op_on b h o -> bus_all b h ->
+  isolated b (own_conn o) h (qstep h o) /\ bus_all b (fst (qstep h o)).
+Proof. intros W TIh Hl Hon Ha. destruct (qstep_local b h o W TIh Hl Hon Ha) as [L A]. split; [now apply isolated_of_loc|exact A]. Qed.
+
+Theorem isolation_deliver b h pos : WF h -> TI h ->
+  (forall p rest, take_nth (N.to_nat pos) (h_bus h) = Some (p, rest) -> pub_ok b h p) ->
+  isolated b None h (step h (ODeliver pos)).
+Proof. intros W TIh Hp. now apply isolated_of_loc, deliver_local. Qed.
+
+(* in reachable states *)
+Corollary isolation_partial_reachable b limits gated ops o :
+  let h := qrun (init limits gated) ops in
+  rs_local h o = true -> op_on b h o -> bus_all b h -> isolated b (own_conn o) h (qstep h o).
+Proof. intros h Hl Hon Ha. apply isolation_partial; auto; [apply wf_reachable_q|apply ti_reachable_q]. Qed.
+
+(* ------------------------------------------------------------------ what another tenant sees: nothing *)
+Lemma bconn_disjoint h b b0 c : Bij h -> bconn b h c -> bconn b0 h c -> b = b0.
+Proof.
+  intros B (x & s & Hs & Hb & Hc) (y & t & Ht & Hbt & Hct).
+  assert (E : x = y) by (apply (attached_fun h c); apply B; [exists s|exists t]; auto). subst y. congruence.
+Qed.
+Lemma own_conn_free h b b0 o : Bij h -> op_on b h o -> b0 <> b -> forall c, Some c = own_conn o -> ~ bconn b0 h c.
+Proof.
+  intros B Hon Hne c Hc (x & s & Hs & Hb & Hcs).
+  destruct (B x c (ex_intro _ s (conj Hs Hcs))) as (cn & Hcn & Hx).
+  assert (Hco : conn_on b h c).
+  { destruct o; cbn [own_conn op_on] in *; try discriminate; injection Hc as ->; try exact Hon; try contradiction. apply Hon. }
+  apply Hne. rewrite <- Hb. apply (Hco cn x s); auto.
+Qed.
+
+Theorem isolation_victim b b0 h o : WF h -> TI h -> rs_local h o = true -> op_on b h o -> bus_all b h -> b0 <> b ->
+  forall c m, In (ToConn c m) (snd (qstep h o)) -> ~ bconn b0 h c.
+Proof.
+  intros W TIh Hl Hon Ha Hne c m Hin. destruct (qstep_local b h o W TIh Hl Hon Ha) as [[_ O] _].
+  destruct (O c m Hin) as [Hc|Hc].
+  - now apply (own_conn_free h b b0 o (proj2 TIh) Hon Hne).
+  - intros Hc0. apply Hne. symmetry. now apply (bconn_disjoint h b b0 c (proj2 TIh)).
+Qed.
+
+(* ------------------------------------------------------------------ histories *)
+Fixpoint qrun_outs (h : hub) (ops : list op) : list out :=
+  match ops with [] => [] | o :: r => snd (qstep h o) ++ qrun_outs (fst (qstep h o)) r end.
+(* every op names no foreign room-session id, and the bus is drained when it starts *)
+Fixpoint locals (h : hub) (ops : list op) : Prop :=
+  match ops with [] => True | o :: r => rs_local h o = true /\ h_bus h = [] /\ locals (fst (qstep h o)) r end.
+(* every op acts for a backend other than b0 *)
+Fixpoint others (b0 : N) (h : hub) (ops : list op) : Prop :=
+  match ops with [] => True | o :: r => (exists b, b <> b0 /\ op_on b h o) /\ others b0 (fst (qstep h o)) r end.
+
+Record same_tenant (b0 : N) (h h' : hub) : Prop := {
+  st_sess : forall sid s, s_backend s = b0 -> get_sess h sid = Some s \/ get_sess h' sid = Some s -> get_sess h' sid = get_sess h sid;
+  st_room : forall rn, room_of h' (b0, rn) = room_of h (b0, rn);
+}.
+Lemma same_tenant_refl b0 h : same_tenant b0 h h.
+Proof. constructor; auto. Qed.
+Lemma same_tenant_trans b0 h1 h2 h3 : same_tenant b0 h1 h2 -> same_tenant b0 h2 h3 -> same_tenant b0 h1 h3.
+Proof.
+  intros [S1 R1] [S2 R2]. constructor.
+  - intros sid s Hb [H|H].
+    + pose proof (S1 sid s Hb (or_introl H)) as E1. rewrite H in E1. rewrite (S2 sid s Hb (or_introl E1)). congruence.
+    + pose proof (S2 sid s Hb (or_intror H)) as E2. rewrite H in E2. symmetry in E2.
+      rewrite <- (S1 sid s Hb (or_intror E2)). congruence.
+  - intros rn. rewrite R2. apply R1.
+Qed.
+Lemma same_tenant_fr b b0 oc h h' : b0 <> b -> Fr b oc h h' -> same_tenant b0 h h'.
+Proof.
+  intros Hne F. constructor.
+  - intros sid s Hb Hor. apply (fr_sess _ _ _ _ F sid s Hor). congruence.
+  - intros rn. now apply (fr_room _ _ _ _ F (b0, rn)).
+Qed.
+Lemma same_tenant_bconn b0 h h' c : same_tenant b0 h h' -> bconn b0 h c -> bconn b0 h' c.
+Proof.
+  intros [S _] (x & s & Hs & Hb & Hc). exists x, s. split; [|auto]. rewrite (S x s Hb (or_introl Hs)). exact Hs.
+Qed.
+
+Lemma bus_all_nil b h : h_bus h = [] -> bus_all b h.
+Proof. intros E p Hp. rewrite E in Hp. destruct Hp. Qed.
+
+(* a history of ops of other backends, none of which names a room-session id of a foreign session:
+   the sessions and rooms of backend b0 at the end are those of the beginning, and no message of the
+   whole history went to a connection of b0 *)
+Theorem isolation_history b0 ops : forall h, WF h -> TI h -> locals h ops -> others b0 h ops ->
+  same_tenant b0 h (qrun h ops) /\
+  (forall c m, In (ToConn c m) (qrun_outs h ops) -> ~ bconn b0 h c).
+Proof.
+  induction ops as [|o r IH]; intros h W TIh Hl Ho; cbn [qrun qrun_outs].
+  - split; [apply same_tenant_refl|intros c m []].
+  - destruct Hl as (Hl & Hb & Hlr). destruct Ho as ((b & Hne & Hon) & Hor).
+    pose proof (bus_all_nil b h Hb) as Ha.
+    destruct (qstep_local b h o W TIh Hl Hon Ha) as [[F O] _].
+    assert (S1 : same_tenant b0 h (fst (qstep h o))) by (apply (same_tenant_fr b b0 (own_conn o)); auto).
+    destruct (IH (fst (qstep h o)) (wf_qstep h o W) (ti_qstep h o W TIh) Hlr Hor) as [S2 O2].
+    split; [eapply same_tenant_trans; eauto|].
+    intros c m Hin. apply in_app_or in Hin as [Hin|Hin].
+    + now apply (isolation_victim b b0 h o W TIh Hl Hon Ha (fun E => Hne (eq_sym E)) c m).
+    + intros Hc. apply (O2 c m Hin). now apply (same_tenant_bconn b0 h).
+Qed.
+
+Corollary isolation_history_reachable b0 limits gated pre ops :
+  let h := qrun (init limits gated) pre in
+  locals h ops -> others b0 h ops ->
+  same_tenant b0 h (qrun h ops) /\ (forall c m, In (ToConn c m) (qrun_outs h ops) -> ~ bconn b0 h c).
+Proof. intros h. apply isolation_history; [apply wf_reachable_q|apply ti_reachable_q]. Qed.
+
+(* ------------------------------------------------------------------ the hypotheses as executable tests *)
+Definition attributable (o : op) : bool := match o with OTick _ | ODeliver _ | OMcuDone _ _ => false | _ => true end.
+(* the backend an op acts for: that of the session attached to its connection; for a hello on a
+   connection without session the backend it names (the backend of the session it resumes) *)
+Definition op_tenant (h : hub) (o : op) : option N :=
+  match o with
+  | OApi b _ _ _ => Some b
+  | OTick _ | ODeliver _ | OMcuDone _ _ => None
+  | OHello c hl =>
+      match conn_backend h c with
+      | Some b => Some b
+      | None => match hl with
+                | HV1 b _ _ | HV2 b _ _ | HInternal b _ _ _ => Some b
+                | HResume (IdPriv n) => match get_sess h n with Some s => Some (s_backend s) | None => None end
+                | HResume _ => None
+                end
+      end
+  | OConnect c _ | OHelloAborted c _ _ | OJoin c _ _ _ | OMsg c _ _ | OCtl c _ _ | OBye c | ODrop c | OInternal c _
+  | OMedia c _ _ _ _ | OTransient c _ _ _ => conn_backend h c
+  end.
+
+Lemma conn_backend_on h c b : WF h -> match conn_backend h c with Some b' => b' = b | None => True end -> conn_on b h c.
+Proof.
+  intros W Hcb cn sid s Hc Hs Hg. unfold conn_backend in Hcb. rewrite Hc, Hs, Hg in Hcb. exact Hcb.
+Qed.
+Lemma conn_backend_unattached h c b : WF h -> conn_backend h c = Some b -> ~ unattached h c.
+Proof.
+  intros W Hcb Hu. unfold conn_backend in Hcb. destruct (aget (h_conns h) c) as [cn|] eqn:Hc; [|discriminate].
+  rewrite (Hu cn Hc) in Hcb. discriminate.
+Qed.
+
+Lemma op_tenant_on h o b : WF h -> attributable o = true ->
+  match op_tenant h o with Some b' => b' = b | None => True end -> op_on b h o.
+Proof.
+  intros W Ha Ht.
+  destruct o as [c addr|c hl|c rn rs rep|c to tag|c to tag|c|c|secs|b' signas room q|c q|c to mk stream media|tok ok|c kindn key val|pos|c hl late];
+    cbn [attributable] in Ha; try discriminate; cbn [op_on op_tenant] in *; try (now apply conn_backend_on); try exact Ht.
+  destruct (conn_backend h c) as [b1|] eqn:Hcb.
+  - subst b1. split; [apply conn_backend_on; [exact W|now rewrite Hcb]|]. intros Hu. exfalso. now apply (conn_backend_unattached h c b W Hcb).
+  - split; [apply conn_backend_on; [exact W|now rewrite Hcb]|]. intros _.
+    destruct hl as [b1 u r|b1 u t|b1 t f d|i]; cbn [hello_on]; try exact Ht.
+    destruct i as [n|n|k|n]; try exact I. intros s Hs. rewrite Hs in Ht. exact Ht.
+Qed.
+
+Fixpoint hist_ok (b0 : N) (h : hub) (ops : list op) : bool :=
+  match ops with
+  | [] => true
+  | o :: r =>
+      rs_local h o && (match h_bus h with [] => true | _ => false end) && attributable o &&
+      (match op_tenant h o with Some b => negb (N.eqb b b0) | None => true end) &&
+      hist_ok b0 (fst (qstep h o)) r
+  end.
+
+Lemma hist_ok_spec b0 ops : forall h, WF h -> hist_ok b0 h ops = true -> locals h ops /\ others b0 h ops.
+Proof.
+  induction ops as [|o r IH]; intros h W H; cbn [hist_ok locals others] in *; [auto|].
+  apply andb_prop in H as [H Hr]. apply andb_prop in H as [H Ht]. apply andb_prop in H as [H Ha]. apply andb_prop in H as [Hl Hb].
+  destruct (IH (fst (qstep h o)) (wf_qstep h o W) Hr) as [L O].
+  split; [split; [exact Hl|split; [destruct (h_bus h); [reflexivity|discriminate]|exact L]]|].
+  split; [|exact O].
+  destruct (op_tenant h o) as [b|] eqn:Hot.
+  - exists b. split; [apply negb_true_iff in Ht; now apply N.eqb_neq|]. apply op_tenant_on; auto. now rewrite Hot.
+  - exists (b0 + 1). split; [lia|]. apply op_tenant_on; auto. now rewrite Hot.
+Qed.
+
+(* the executable form of the history theorem *)
+Theorem isolation_history_checked b0 limits gated pre ops :
+  let h := qrun (init limits gated) pre in
+  hist_ok b0 h ops = true ->
+  same_tenant b0 h (qrun h ops) /\ (forall c m, In (ToConn c m) (qrun_outs h ops) -> ~ bconn b0 h c).
+Proof.
+  intros h Hok. destruct (hist_ok_spec b0 ops h (wf_reachable_q limits gated pre) Hok) as [L O].
+  now apply isolation_history_reachable.
+Qed.
+
+(* ------------------------------------------------------------------ the hypotheses are satisfiable *)
+(* two tenants with the same room id (5), the same user ids (7, 8); the Nextcloud session ids
+   are disjoint per backend (11, 12 on backend 0; 21, 22 on backend 1) *)
+Definition two_tenants_setup : list op :=
+  [OConnect 1 0; OConnect 2 0; OConnect 3 0; OConnect 4 0; OConnect 5 0;
+   OHello 1 (HV1 0 7 false); OHello 2 (HV1 1 7 false); OHello 3 (HV1 0 8 false); OHello 4 (HV1 1 8 false);
+   OHello 5 (HInternal 0 0 true false);
+   OJoin 1 5 11 (RepOk None 0); OJoin 2 5 21 (RepOk None 0); OJoin 3 5 12 (RepOk None 0); OJoin 4 5 22 (RepOk None 0);
+   OJoin 5 5 0 (RepOk None 0)].
+(* what backend 0, its clients and its internal client do afterwards *)
+Definition tenant0_ops : list op :=
+  [OMsg 1 RRoom 3; OMsg 1 (RUser 8) 4; OCtl 3 (RSession (IdPub 1)) 5; OMsg 1 (RSession (IdPub 2)) 6;
+   OApi 0 0 5 (AParticipants [(IdRS 11, 1, Some 24)]); OApi 0 0 5 (AInCall [(IdRS 12, 1, None)]);
+   OApi 0 0 5 (AInCallAll 1); OApi 0 0 5 (AMessage 9); OApi 0 0 5 (AUpdate 1);
+   OTransient 3 0 1 2;
+   OInternal 5 (IAdd 1 5 9 None None); OInternal 5 (IUpdate 1 5 (Some 2) None); OInternal 5 (IRemove 1 5);
+   OMedia 1 (RSession (IdPub 1)) 0 0 3;
+   ODrop 3; OMsg 1 RRoom 7; OConnect 6 0; OHello 6 (HResume (IdPriv 3));
+   OJoin 1 0 0 (RepOk None 0); OJoin 1 5 11 (RepOk None 0);
+   OApi 0 0 5 (ADisinvite [8] [12]);
+   OApi 0 0 5 ADelete; OBye 1; OBye 5].
+
+Definition conn_msgs (c : N) (outs : list out) : list smsg :=
+  flat_map (fun o => match o with ToConn c' m => if N.eqb c c' then [m] else [] | _ => [] end) outs.
+
+(* the whole history satisfies the side condition, and tenant 1 is a bystander of the second part *)
+Example two_tenants_local :
+  hist_ok 2 (init [0; 0] false) (two_tenants_setup ++ tenant0_ops) = true /\
+  hist_ok 1 (qrun (init [0; 0] false) two_tenants_setup) tenant0_ops = true.
+Proof. split; vm_compute; reflexivity. Qed.
+
+(* not vacuous: the sessions of tenant 0 do get what tenant 0 does, those of tenant 1 nothing *)
+Example two_tenants_traffic :
+  let h := qrun (init [0; 0] false) two_tenants_setup in
+  let outs := qrun_outs h tenant0_ops in
+  (length (conn_msgs 1 outs) >= 5)%nat /\ (length (conn_msgs 3 outs) >= 5)%nat /\ (length (conn_msgs 6 outs) >= 3)%nat /\
+  conn_msgs 2 outs = [] /\ conn_msgs 4 outs = [] /\
+  get_sess (qrun h tenant0_ops) 2 = get_sess h 2 /\ get_sess (qrun h tenant0_ops) 4 = get_sess h 4 /\
+  room_of (qrun h tenant0_ops) (1, 5) = room_of h (1, 5) /\ room_of h (1, 5) <> None /\
+  room_of h (0, 5) <> None /\ room_of (qrun h tenant0_ops) (0, 5) = None.
+Proof. vm_compute. repeat split; try reflexivity; try discriminate; repeat constructor. Qed.
+
+Example two_tenants_isolated :
+  let h := qrun (init [0; 0] false) two_tenants_setup in
+  same_tenant 1 h (qrun h tenant0_ops) /\ (forall c m, In (ToConn c m) (qrun_outs h tenant0_ops) -> ~ bconn 1 h c).
+Proof. apply (isolation_history_checked 1 [0; 0] false two_tenants_setup tenant0_ops). vm_compute. reflexivity. Qed.
+
+(* the side condition is what the two known findings violate: the second tenant names the Nextcloud
+   session id 5 held by a session of the first *)
+Definition shared_rs_pre : list op :=
+  [OConnect 1 0; OConnect 2 0; OHello 1 (HV1 0 1 false); OHello 2 (HV1 1 1 false); OJoin 1 1 5 (RepOk None 0)].
+Example kick_not_local : rs_local (qrun (init [0; 0] false) shared_rs_pre) (OJoin 2 7 5 (RepOk None 0)) = false.
+Proof. vm_compute. reflexivity. Qed.
+Example api_not_local :
+  rs_local (qrun (init [0; 0] false) shared_rs_pre) (OApi 1 1 9 (AParticipants [(IdRS 5, 0, Some 24)])) = false.
+Proof. vm_compute. reflexivity. Qed.
+(* and without it the statement fails: the session of backend 0 is closed by the join on backend 1,
+   its permissions are changed by the API call of backend 1 *)
+Lemma isolation_refuted_without_rs_local :
+  let h := qrun (init [0; 0] false) shared_rs_pre in
+  (exists s, get_sess h 1 = Some s /\ s_backend s = 0) /\
+  get_sess (fst (qstep h (OJoin 2 7 5 (RepOk None 0)))) 1 = None /\
+  (exists s s', get_sess h 1 = Some s /\
+     get_sess (fst (qstep h (OApi 1 1 9 (AParticipants [(IdRS 5, 0, Some 24)])))) 1 = Some s' /\ s_perms s = None /\ s_perms s' = Some 24).
+Proof. vm_compute. split; [eexists; split; reflexivity|]. split; [reflexivity|]. eexists. eexists. repeat split; reflexivity. Qed.
